@@ -71,6 +71,10 @@ pub struct CancelParams {
     /// is handed the recycled stream id, nobody told it to end, and it sends one more event
     #[serde(default)]
     pub replace: bool,
+    /// this stream's consumer leaves on its own (drops its stream without having been told to end, as a `take(n)` would)
+    /// before the request is issued; it holds a lower stream id than at least one stream that stays
+    #[serde(default)]
+    pub early_leaver: Option<usize>,
 }
 
 fn cancel_body(p: &CancelParams) {
@@ -113,6 +117,12 @@ fn cancel_body(p: &CancelParams) {
             CancelAction::EndStreams(mask) => mask & (1 << s) != 0,
         })
         .collect();
+    if let Some(l) = p.early_leaver {
+        // not told to end by anybody (it is gone before the request): `gracefully_end_stream` is not issued for it
+        if l < targeted.len() {
+            targeted[l] = false;
+        }
+    }
     let replace = p.replace && matches!(p.action, CancelAction::EndStreams(_));
     let canceller_done: Arc<HLock<bool>> = Arc::new(HLock::new(false));
     // (driver, stream id, creation stamp, id of the event sent after the creation) of the replacement stream
@@ -127,7 +137,25 @@ fn cancel_body(p: &CancelParams) {
     let mut canceller = Some({
         let (ch2, request2, action, delay, ids, targeted2, canceller_done2) = (Arc::clone(&ch), Arc::clone(&request), p.action, p.delay, stream_ids.clone(), targeted.clone(), Arc::clone(&canceller_done));
         let kind_name = kind.name();
+        let (early, drivers_c, shared_c) = (p.early_leaver, drivers.clone(), Arc::clone(&shared));
         shuttle::thread::spawn(move || {
+            if let Some(l) = early {
+                // the leaver's consumer goes away first (nobody told it to end) ...
+                ctx::trace(|| format!("the consumer of stream #{} leaves on its own", l));
+                ctx::fault_fired("consumer_leaves_on_its_own_before_the_request");
+                harness::stop_driver(drivers_c[l]);
+                let mut rounds = 0u32;
+                while !shared_c.lock().unwrap().drops.iter().any(|(th, _, _)| *th == 1 + n_prod + l) {
+                    if ctx::aborted() {
+                        return;
+                    }
+                    harness_yield();
+                    rounds += 1;
+                    if rounds > 50_000 {
+                        panic!("harness: the early leaver never dropped its stream");
+                    }
+                }
+            }
             for _ in 0..delay {
                 harness_point();
             }
@@ -264,7 +292,11 @@ fn cancel_body(p: &CancelParams) {
     for s in 0..n_streams {
         let thread_no = 1 + n_prod + s;
         let (parked, wakes) = harness::with_driver(drivers[s], |d| (d.parked.get(), d.wakes.get()));
-        if targeted[s] && !ended(thread_no) {
+        if Some(s) == p.early_leaver {
+            continue;
+        }
+        let told = targeted[s] || (p.early_leaver.is_some() && matches!(p.action, CancelAction::CancelAll | CancelAction::EndAll));
+        if told && !ended(thread_no) {
             ctx::report(
                 "C07",
                 "parked_and_not_ended",
@@ -272,12 +304,12 @@ fn cancel_body(p: &CancelParams) {
                 format!("stream #{} (id {}) was told to end, every producer has returned and nobody is left to wake it, yet it has not answered end-of-stream (parked={}, wake-ups received={})", s, stream_ids[s], parked, wakes),
             );
         }
-        if !targeted[s] && ended(thread_no) {
+        if !told && ended(thread_no) {
             ctx::report("C07", "untargeted_ended", key("untargeted_ended"), format!("stream #{} (id {}) answered end-of-stream although only {:?} were told to end", s, stream_ids[s], targeted));
         }
     }
     // ---- verdict 2: untargeted streams keep receiving (a lost wake-up, C04's subject, is neutralised by a harness-side flush)
-    let untargeted: Vec<usize> = (0..n_streams).filter(|s| !targeted[*s]).collect();
+    let untargeted: Vec<usize> = (0..n_streams).filter(|s| !targeted[*s] && Some(*s) != p.early_leaver).collect();
     if !untargeted.is_empty() && ctx::with_ctx(|c| c.violations.is_empty()).unwrap_or(true) {
         loop {
             let before = shared.lock().unwrap().events.iter().filter(|e| e.kind == EvKind::Poll && e.accepted).count();
@@ -314,7 +346,7 @@ fn cancel_body(p: &CancelParams) {
                     if !sh.events.iter().any(|y| y.thread == thread_no && y.kind == EvKind::Poll && y.accepted && y.id == e.id) {
                         // which history is it? The send ran while a listener with a lower stream id was being removed (the live
                         // list is compacted under the sender's cursor -- the recorded finding), or nothing of the kind happened
-                        let removal_under_the_cursor = (0..p.streams).any(|t| targeted[t] && stream_ids[t] <= stream_ids[*s] && sh.drops.iter().any(|(th, d_inv, d_ret)| *th == 1 + n_prod + t && *d_inv < e.ret && e.inv < *d_ret));
+                        let removal_under_the_cursor = (0..p.streams).any(|t| (targeted[t] || Some(t) == p.early_leaver) && stream_ids[t] <= stream_ids[*s] && sh.drops.iter().any(|(th, d_inv, d_ret)| *th == 1 + n_prod + t && *d_inv < e.ret && e.inv < *d_ret));
                         // ... or a listener with a lower stream id was being *added* (the same list is rewritten the other way)
                         let addition_under_the_cursor = *s < p.streams && newcomer_creation.map(|(id, c_inv, c_ret)| id <= stream_ids[*s] && c_inv < e.ret && e.inv < c_ret).unwrap_or(false);
                         let removal_under_the_cursor = removal_under_the_cursor || addition_under_the_cursor;
@@ -420,7 +452,15 @@ impl Scenario for Cancel {
         let replace = matches!(action, CancelAction::EndStreams(_)) && streams == max_streams && kind != Kind::MultiMmapLog && total + 1 < buffer && rng.chance(1, 2);
         // with a replacement exactly one stream is told to end (the request may go on waiting once the id was handed out again)
         let action = if replace { CancelAction::EndStreams(1 << rng.below(streams as u64)) } else { action };
-        CancelParams { sched, kind, buffer, max_streams, streams, prefill, producers, hold: if rng.chance(1, 3) { 1 } else { 0 }, waker_churn: rng.chance(1, 4), action, delay: *rng.pick(&[0, 0, 1, 3, 8, 20, 60]), replace }
+        let early_leaver = if streams >= 2 && !replace && rng.chance(1, 4) { Some(rng.below(streams as u64 - 1) as usize) } else { None };
+        let action = match (action, early_leaver) {
+            (CancelAction::EndStreams(mask), Some(l)) => {
+                let m = mask & !(1u8 << l);
+                CancelAction::EndStreams(if m == 0 { 1u8 << (streams - 1) } else { m })
+            }
+            (a, _) => a,
+        };
+        CancelParams { sched, kind, buffer, max_streams, streams, prefill, producers, hold: if rng.chance(1, 3) { 1 } else { 0 }, waker_churn: rng.chance(1, 4), action, delay: *rng.pick(&[0, 0, 1, 3, 8, 20, 60]), replace, early_leaver }
     }
     fn sched<'a>(&self, p: &'a CancelParams) -> &'a SchedSpec {
         &p.sched
@@ -455,7 +495,7 @@ impl Scenario for Cancel {
             q.prefill -= 1;
             out.push(q);
         }
-        if p.streams > 1 {
+        if p.streams > 1 && p.early_leaver.map(|l| l + 2 < p.streams).unwrap_or(true) {
             let mut q = p.clone();
             q.streams -= 1;
             if let CancelAction::EndStreams(mask) = q.action {
@@ -482,6 +522,11 @@ impl Scenario for Cancel {
         if p.replace {
             let mut q = p.clone();
             q.replace = false;
+            out.push(q);
+        }
+        if p.early_leaver.is_some() {
+            let mut q = p.clone();
+            q.early_leaver = None;
             out.push(q);
         }
         if p.sched.weak_cas > 0 || p.sched.stall > 0 {
